@@ -386,7 +386,7 @@ def cp_final(v, old, upto):
     sg = v.self
     n = length(sg.nodes)
     return [
-        ("all_estimates", forall(0, n, lambda x: conj(eq(v.pdf[x], pdf_value(v, old, x)),
+        ("all_estimates", forall(0, n, lambda x: conj(eq(v.pdf[x], pdf_value(v, old, x)), ge(v.pdf[x], 0), lt(v.pdf[x], 1),
                                                        le(sg.min_density, v.pdf[x]), le(v.pdf[x], sg.max_density)))),
         ("extremes", conj(le(0, v.g_imin), lt(v.g_imin, n), eq(sg.min_density, v.pdf[v.g_imin]),
                           le(0, v.g_imax), lt(v.g_imax, n), eq(sg.max_density, v.pdf[v.g_imax]))),
@@ -410,6 +410,8 @@ def cp_ensures(v, old, result):
                             le(0, imax), lt(imax, n), eq(sg.max_density, pdf_value(v, old, imax)))),
         ("mapped", forall(0, n, lambda x: conj(eq(N[x].density, mapped(v, old, x)), eq(N[x].cost, N[x].density - 1)))),
         ("range", forall(0, n, lambda x: conj(le(1, N[x].density), le(N[x].density, MAX_DENSITY)))),
+        ("raw_range", conj(ge(sg.min_density, 0), lt(sg.max_density, 1), le(sg.min_density, sg.max_density),
+                           gt(sg.constant, 0))),
     ]
 
 
